@@ -155,6 +155,7 @@ type BundleOpts struct {
 	Certs       []*certurl.AugmentedCertificate
 	Twins       int  // extra exchanges whose status, headers and body are byte-identical to an earlier exchange (other URL)
 	SharedSlab  bool // the bodies are consecutive windows of one buffer (slices with spare capacity reaching into the next body)
+	SmallHeader bool // cap header values at 300 bytes (fault sweeps pay for every output byte at every position)
 }
 
 // VariantSet describes one generated variants URL.
@@ -310,6 +311,17 @@ func RandBundle(g *mon.Rand, o BundleOpts) (*bundle.Bundle, []*VariantSet) {
 			s.VouchedSubsets = append(s.VouchedSubsets, &bundle.VouchedSubset{Authority: uint64(g.Intn(na + 1)), Sig: sig, Signed: signed})
 		}
 		b.Signatures = s
+	}
+	if o.SmallHeader {
+		for _, e := range b.Exchanges {
+			for k, vs := range e.Response.Header {
+				for vi, v := range vs {
+					if len(v) > 300 {
+						e.Response.Header[k][vi] = v[:300]
+					}
+				}
+			}
+		}
 	}
 	if o.SharedSlab {
 		ShareSlab(b)
